@@ -9,7 +9,7 @@ add("C01", "checks/c01_memsafe.c", ["default-asan", "noinfo-asan", "heap-asan", 
     deps=["checks/c01_core.h"],
     fuzz=dict(entry="fuzz/c01_fuzz.c", corpus="fuzz/corpus", dict="fuzz/scpi.dict", runs=400000, jobs=4, configs=["default", "noinfo", "heap", "dtostre"], timeout=2400),
     valgrind=dict(config="default", scale=0.02, shards=16, timeout=2400),
-    rule_more="long numeric tokens around 16/32/64/128 characters; error queues of 255..32767 entries; a handler announcing response blocks of up to 2^32-1 bytes; exact-size SCPI_Match calls; optional callbacks removed; identification strings of 0..139 characters or NULL",
+    rule_more="long numeric tokens around 16/32/64/128 characters; error queues of 255..32767 entries; a handler announcing response blocks of up to 2^32-1 bytes; exact-size SCPI_Match calls; optional callbacks removed; identification strings of 0..139 characters or NULL; units and pushed texts of 150..300 characters with a quote / doubled quote / new line at every offset, reported through the error query",
     tsan=dict(source="checks/tsan_contexts.c", configs=["default", "heap"], rounds=200),
     technique="sanitizer monitoring: clang AddressSanitizer + UndefinedBehaviorSanitizer + LeakSanitizer with exact-size heap allocations for every buffer, ASan manual poisoning of the unused input-buffer tail through the SCPI_PARSER_VERIF hook, per-case watchdog, termination rule after flush",
     level_text="exploration by execution in all four build configurations; memory safety is decided by ASan/UBSan on the paths the workload reaches (red-zone detection: intra-object overflows and reads of stale-but-addressable bytes other than the poisoned buffer tail are invisible)",
